@@ -493,4 +493,126 @@ theorem Sep.gen {cfg : Cfg} {s : State} {S : LockId → Bool} (h : Sep s S) (h1 
     | true => exact absurd hk (hdis l lk k hS' hl hk')
   · exact h l l' lk lk' k hl hl' hk hk'
 
+/-! ## exactness of the stale flag: two more ghost invariants -/
+
+structure Inv4 (s : State) : Prop where
+  /-- a non-zero `maxCommitTS` is one of the commits published on the node -/
+  max_in_pubs : ∀ i n, n ∈ (s.slots i).queue → n.maxCommitTS = 0 ∨ n.maxCommitTS ∈ n.pubs
+  /-- what a node remembers was published by a release on its key -/
+  pubs_published : ∀ i n c, n ∈ (s.slots i).queue → c ∈ n.pubs → (n.key, c) ∈ s.published
+
+theorem mem_upd_queue {cfg : Cfg} {s : State} (h1 : Inv1 cfg s) {slotID : Nat} {key : Key} {n : Node}
+    {f : Node → Node} (hf : findNode (s.slots slotID).queue key = some n) {cnt : Int} {wt : List LockId}
+    {i : Nat} {m : Node}
+    (hm : m ∈ (upd s.slots slotID { queue := updNode key f (s.slots slotID).queue, count := cnt, waiting := wt } i).queue) :
+    (∃ j, m ∈ (s.slots j).queue) ∨ m = f n := by
+  simp only [upd_apply] at hm
+  split at hm
+  · rcases mem_updNode (h1.qnodup _) hm with ⟨hm, _⟩ | ⟨n0, hn0, hn0k, rfl⟩
+    · exact .inl ⟨_, hm⟩
+    · right
+      have := findNode_of_mem (h1.qnodup _) hn0
+      rw [hn0k, hf] at this; cases this; rfl
+  · exact .inl ⟨_, hm⟩
+
+theorem Inv4.init : Inv4 Latch.init := ⟨by simp [Latch.init, emptySlot], by simp [Latch.init, emptySlot]⟩
+
+theorem Inv4.rel {cfg : Cfg} {s : State} (h1 : Inv1 cfg s) (h : Inv4 s) {slotID : Nat} {key : Key} {n : Node}
+    (hf : findNode (s.slots slotID).queue key = some n) (c : Nat) (hd : Option LockId)
+    (cnt : Int) (wt : List LockId) (locks' : Nat → Option Lock) :
+    Inv4 { s with
+      slots := upd s.slots slotID { queue := updNode key (relNodeF (max n.maxCommitTS c) c hd) (s.slots slotID).queue,
+                                    count := cnt, waiting := wt },
+      locks := locks', published := (key, c) :: s.published } := by
+  obtain ⟨hnm, hnk⟩ := findNode_some hf
+  constructor
+  · intro i m hm
+    rcases mem_upd_queue h1 hf hm with ⟨j, hj⟩ | rfl
+    · exact h.max_in_pubs j m hj
+    · simp only [relNodeF, List.mem_cons]
+      rcases max_cases n.maxCommitTS c with e | e
+      · rw [e]; rcases h.max_in_pubs _ n hnm with h0 | h0
+        · exact .inl h0
+        · exact .inr (.inr h0)
+      · rw [e]; exact .inr (.inl rfl)
+  · intro i m c' hm hc
+    rcases mem_upd_queue h1 hf hm with ⟨j, hj⟩ | rfl
+    · exact List.mem_cons_of_mem _ (h.pubs_published j m c' hj hc)
+    · simp only [relNodeF, List.mem_cons] at hc ⊢
+      rcases hc with e | hc
+      · left; rw [e, hnk]
+      · right; exact h.pubs_published _ n c' hnm hc
+
+theorem Inv4.eff {cfg : Cfg} {s s' : State} (h1 : Inv1 cfg s) (h : Inv4 s) {o : Option LockId}
+    (e : Eff cfg s o s') : Inv4 s' := by
+  cases e with
+  | gen ts keys hnd => exact ⟨h.max_in_pubs, h.pubs_published⟩
+  | recycle i ts =>
+    constructor
+    · intro j n hn
+      simp only [recycleSlot, upd_apply] at hn
+      split at hn
+      · exact h.max_in_pubs _ n (List.mem_filter.mp hn).1
+      · exact h.max_in_pubs j n hn
+    · intro j n c hn
+      simp only [recycleSlot, upd_apply] at hn
+      split at hn
+      · exact h.pubs_published _ n c (List.mem_filter.mp hn).1
+      · exact h.pubs_published j n c hn
+  | staleRet l lk hl hp hst => exact ⟨h.max_in_pubs, h.pubs_published⟩
+  | acqStale l lk key slotID n hl hp hst hk hs hf hgt => exact ⟨h.max_in_pubs, h.pubs_published⟩
+  | unlock l lk c hl hp => exact ⟨h.max_in_pubs, h.pubs_published⟩
+  | acqLocked l lk key slotID n o hl hp hst hk hs hf hle hh =>
+    constructor
+    · intro j m hm
+      simp only [upd_apply] at hm
+      split at hm
+      · next e => subst e; exact h.max_in_pubs _ m hm
+      · exact h.max_in_pubs j m hm
+    · intro j m c hm
+      simp only [upd_apply] at hm
+      split at hm
+      · next e => subst e; exact h.pubs_published _ m c hm
+      · exact h.pubs_published j m c hm
+  | acqNew l lk key slotID hl hp hst hk hs hf =>
+    constructor
+    · intro j m hm
+      simp only [upd_apply] at hm
+      split at hm
+      · rcases List.mem_cons.mp hm with e | hm
+        · subst e; left; rfl
+        · exact h.max_in_pubs _ m hm
+      · exact h.max_in_pubs j m hm
+    · intro j m c hm hc
+      simp only [upd_apply] at hm
+      split at hm
+      · rcases List.mem_cons.mp hm with e | hm
+        · subst e; simp [newNode] at hc
+        · exact h.pubs_published _ m c hm hc
+      · exact h.pubs_published j m c hm hc
+  | acqFree l lk key slotID n hl hp hst hk hs hf hle hh =>
+    obtain ⟨hnm, _⟩ := findNode_some hf
+    constructor
+    · intro j m hm
+      rcases mem_upd_queue h1 hf hm with ⟨j', hj⟩ | rfl
+      · exact h.max_in_pubs j' m hj
+      · exact h.max_in_pubs _ n hnm
+    · intro j m c hm hc
+      rcases mem_upd_queue h1 hf hm with ⟨j', hj⟩ | rfl
+      · exact h.pubs_published j' m c hj hc
+      · exact h.pubs_published _ n c hnm hc
+  | relNone l lk key slotID n hl hp hc hk hs hf hh hw => exact Inv4.rel h1 h hf _ _ _ _ _
+  | relStale l lk key slotID n w lkw hl hp hc hk hs hf hh hw hlw hgt => exact Inv4.rel h1 h hf _ _ _ _ _
+  | relWake l lk key slotID n w lkw hl hp hc hk hs hf hh hw hlw hle => exact Inv4.rel h1 h hf _ _ _ _ _
+
+theorem Reachable.inv4 {cfg : Cfg} {s : State} (h : Reachable cfg s) : Inv4 s := by
+  induction h with
+  | init => exact Inv4.init
+  | @step s0 s2 a hr hs ih =>
+    obtain ⟨s1, h1, e⟩ := step_eff hs
+    rcases h1 with rfl | ⟨i, ts, rfl⟩
+    · exact ih.eff hr.inv12.1 e
+    · have e0 := Eff.recycle (cfg := cfg) (s := s0) i ts
+      exact (ih.eff hr.inv12.1 e0).eff (hr.inv12.1.eff e0) e
+
 end CGV.Latch
